@@ -240,4 +240,480 @@ def rule_linear(prog, res, rule="R-LIN"):
                      "%s: the unsigned subtraction %s is no longer guarded against wrapping around (it was proven non-negative on the reference tree)" % (fn, text))
         else:
             res.notes.append("R-LIN/SUB: %s: %s not proven non-negative by the linear domain (depends on lap relations)" % (fn, text))
+    rule_cursor_cmp(prog, res, rule)
+    rule_reader_min(prog, res, rule)
+    rule_available(prog, res, rule)
+    rule_reader_ops(prog, res, rule)
+    rule_writer_ops(prog, res, rule)
     return an
+
+
+# ---------------------------------------------------------------------------
+# further obligations (added after mutation analysis of the checkers showed
+# which single-token edits of channel.c went unnoticed)
+def _lt(a, b):
+    return ("le", L.ladd(L.lsub(a, b), L.lconst(1)))
+
+
+def _le(a, b):
+    return ("le", L.lsub(a, b))
+
+
+def _eq(a, b):
+    return ("eq", L.lsub(a, b))
+
+
+def _init(key):
+    return L.lvar("%s#0" % key)
+
+
+def _consistent(st, conj):
+    s = st.copy()
+    for op, l in conj:
+        s.cons.append((op, l))
+    return s.feasible()
+
+
+def rule_cursor_cmp(prog, res, rule="R-LIN"):
+    """cursor_cmp is the lexicographic order on (major, minor) pairs."""
+    f = prog.func("cursor_cmp")
+    res.touched(f)
+    if len(f.params) != 4:
+        raise AnalysisBroken("cursor_cmp: expected (major_a, minor_a, major_b, minor_b)")
+    an = L.Analysis(prog)
+    rets = an.run(f, L.State())
+    bad = None
+    for rv, st in rets:
+        a0, a1, b0, b1 = [an.read(st, "cursor_cmp:%s" % p["n"]) for p in f.params]
+        if rv is None or not L.is_const(rv):
+            bad = "returns a non-constant"
+            continue
+        v = rv.get(L.ONE, 0)
+        if v < 0:
+            ok = some(st, [_lt(a0, b0)], [_eq(a0, b0), _lt(a1, b1)])
+        elif v > 0:
+            ok = some(st, [_lt(b0, a0)], [_eq(a0, b0), _lt(b1, a1)])
+        else:
+            ok = some(st, [_eq(a0, b0), _eq(a1, b1)])
+        if not ok:
+            bad = "returns %s on a path where (%s, %s) versus (%s, %s) is not ordered that way" % (
+                v, f.params[0]["n"], f.params[1]["n"], f.params[2]["n"], f.params[3]["n"])
+    inst = "cursor_cmp is the lexicographic order of (lap, position)"
+    if bad:
+        res.fail(rule, inst, "%s|cursor_cmp|order" % rule, f.loc(),
+                 "cursor_cmp %s: the slowest reader is misidentified and the writer is granted its unread bytes" % bad)
+    else:
+        res.oblige(rule, inst, True, "%d return state(s)" % len(rets), f.loc())
+
+
+def rule_reader_min(prog, res, rule="R-LIN"):
+    """reader_min keeps the running minimum: one iteration either keeps
+    (lap, position, index) and the kept pair is <= element i, or replaces all
+    three by element i which is <= the previous pair; it starts from element 0
+    and visits every index below n."""
+    f = prog.func("reader_min")
+    res.touched(f)
+    from . import paths
+    loops = paths.natural_loops(f)
+    if len(loops) != 1 or len(f.params) != 3:
+        raise AnalysisBroken("reader_min: expected one loop over (positions, laps, n)")
+    head, body = loops[0]
+    pos_p, lap_p, n_p = f.params
+    # roles of the cells written in the loop body
+    keys = {}
+    an0 = L.Analysis(prog)
+    st0 = L.State()
+    for b in body:
+        for s in f.blocks[b].stmts:
+            for lv, op, rhs, w in ir.writes_of(s):
+                r0 = ir.strip(rhs) if isinstance(rhs, dict) else None
+                k = an0.cellkey(f, lv, st0)
+                if k is None or not isinstance(r0, dict):
+                    continue
+                if r0.get("k") == "idx":
+                    base = ir.strip(r0["b"])
+                    if isinstance(base, dict) and base.get("k") == "var":
+                        if base["id"] == pos_p["id"]:
+                            keys["T"] = k
+                        elif base["id"] == lap_p["id"]:
+                            keys["C"] = k
+                        keys["ivar"] = an0.cellkey(f, r0["i"], st0)
+                elif r0.get("k") == "var" and op == "=":
+                    keys["A"] = k
+    if not all(x in keys for x in ("T", "C", "A", "ivar")):
+        res.fail(rule, "reader_min keeps the running minimum", "%s|reader_min|shape" % rule, f.loc(),
+                 "reader_min no longer updates the candidate (position, lap, index) together from element i: the index returned does not belong to the smallest cursor")
+        return
+    rec = {"pre": [], "entry": [], "back": []}
+    an = L.Analysis(prog,
+                    on_loop_pre=lambda f_, h, s: rec["pre"].append(s.copy()) if f_ is f else None,
+                    on_loop_entry=lambda f_, h, s: rec["entry"].append(s) if f_ is f else None,
+                    on_backedge=lambda f_, h, s: rec["back"].append(s.copy()) if f_ is f else None)
+
+    def entry_hook(f_, h, s):
+        if f_ is f:
+            for kk in ("T", "C", "A", "ivar"):
+                an.read(s, keys[kk])
+    an.on_loop_entry = entry_hook
+    rets = an.run(f, L.State())
+    problems = []
+    # start: candidate = element 0, index 0, i in {0, 1}
+    for s in rec["pre"]:
+        e0t = an.read(s, "reader_min:%s[0]" % pos_p["n"])
+        e0c = an.read(s, "reader_min:%s[0]" % lap_p["n"])
+        okp = keys["T"] in s.cells and keys["C"] in s.cells and keys["A"] in s.cells and keys["ivar"] in s.cells and \
+            s.entails_eq(L.lsub(s.cells[keys["T"]], e0t)) and s.entails_eq(L.lsub(s.cells[keys["C"]], e0c)) and \
+            s.entails_eq(s.cells[keys["A"]]) and \
+            (s.entails_eq(s.cells[keys["ivar"]]) or s.entails_eq(L.lsub(s.cells[keys["ivar"]], L.lconst(1))))
+        if not okp:
+            problems.append("the scan does not start from element 0 (candidate, index 0, first i in {0,1})")
+    if not rec["back"]:
+        problems.append("the loop body never completes an iteration")
+    for s in rec["back"]:
+        T0, C0, A0, i0 = [L.lvar("%s#%d" % (keys[k], s.ver.get(keys[k], 1) - 1)) for k in ("T", "C", "A", "ivar")]
+        # symbols created at the loop entry (after the havoc) carry the highest version
+        T1, C1, A1, i1 = [s.cells.get(keys[k]) for k in ("T", "C", "A", "ivar")]
+        if None in (T1, C1, A1, i1):
+            problems.append("candidate cells lost")
+            continue
+        Et = an.read(s, "reader_min:%s[%s]" % (pos_p["n"], L.lshow(i0)))
+        Ec = an.read(s, "reader_min:%s[%s]" % (lap_p["n"], L.lshow(i0)))
+        n = an.read(s, "reader_min:%s" % n_p["n"])
+        keep = [_eq(C1, C0), _eq(T1, T0), _eq(A1, A0)]
+        take = [_eq(C1, Ec), _eq(T1, Et), _eq(A1, i0)]
+        ok = some(s, keep + [_lt(C0, Ec)], keep + [_eq(C0, Ec), _le(T0, Et)],
+                  take + [_lt(Ec, C0)], take + [_eq(Ec, C0), _le(Et, T0)])
+        if not ok:
+            problems.append("an iteration can end with a candidate that is not the smaller of (previous candidate, element i), or with an index that does not belong to it")
+        if not s.entails_eq(L.lsub(i1, L.ladd(i0, L.lconst(1)))):
+            problems.append("the index does not advance by one")
+        if not s.entails_le(L.ladd(L.lsub(i0, n), L.lconst(1))):
+            problems.append("the body runs for an index that is not below n")
+    for rv, s in rets:
+        i_ = s.cells.get(keys["ivar"])
+        n = an.read(s, "reader_min:%s" % n_p["n"])
+        if i_ is None or not s.entails_le(L.lsub(n, i_)):
+            problems.append("the scan can stop before index n")
+        if rv is None or not s.entails_eq(L.lsub(rv, s.cells.get(keys["A"], {}))):
+            problems.append("the value returned is not the candidate's index")
+    inst = "reader_min keeps the running minimum over all n readers"
+    if problems:
+        res.fail(rule, inst, "%s|reader_min|argmin" % rule, f.loc(),
+                 "reader_min: %s: the writer measures free space against a reader that is not the slowest one" % "; ".join(sorted(set(problems))))
+    else:
+        res.oblige(rule, inst, True, "%d iteration state(s)" % len(rec["back"]), f.loc())
+
+
+def rule_available(prog, res, rule="R-LIN"):
+    """get_available_byte_count(reader, pos, cycle, high) is the length of the
+    region read_map handed out: 0 when the reader cursor equals (pos, cycle),
+    high - pos when the reader cursor is the next lap's start (reader->pos ==
+    0), reader->pos - pos otherwise."""
+    f = prog.func("get_available_byte_count")
+    res.touched(f)
+    if len(f.params) != 4:
+        raise AnalysisBroken("get_available_byte_count: parameters changed")
+    an = L.Analysis(prog)
+    rets = an.run(f, L.State())
+    bad = None
+    for rv, st in rets:
+        rpos = an.read(st, "reader->pos")
+        rcyc = an.read(st, "reader->cycle")
+        pos, cyc, high = [an.read(st, "get_available_byte_count:%s" % p["n"]) for p in f.params[1:]]
+        if rv is None:
+            bad = "returns nothing"
+            continue
+        same = [_eq(rpos, pos), _eq(rcyc, cyc)]
+        if some(st, same + [("eq", rv)]):
+            continue
+        if _consistent(st, same):
+            bad = "can return %s although the reader cursor equals the hold cursor (nothing mapped)" % _pretty(L.lshow(rv))
+            continue
+        if some(st, [("eq", rpos), _eq(rv, L.lsub(high, pos))]):
+            continue
+        if not _consistent(st, [("eq", rpos)]) and some(st, [_eq(rv, L.lsub(rpos, pos))]):
+            continue
+        bad = "returns %s where the mapped region is [pos, %s)" % (_pretty(L.lshow(rv)), "high or reader->pos")
+    inst = "get_available_byte_count is the length of the mapped region"
+    if bad:
+        res.fail(rule, inst, "%s|get_available_byte_count|length" % rule, f.loc(),
+                 "get_available_byte_count %s: channel_read_unmap then releases more or fewer bytes than were mapped" % bad)
+    else:
+        res.oblige(rule, inst, True, "%d return state(s)" % len(rets), f.loc())
+
+
+def rule_reader_ops(prog, res, rule="R-LIN"):
+    """channel_read_map / channel_read_unmap, beyond READ:
+    OVF   the overflow error is raised only when the hold cursor is neither in
+          the writer's lap at or before head nor one lap behind at or after head;
+    SKIP  the hold position is moved to the start of the next lap only when
+          nothing is left in the old lap (position == high);
+    STATE data is handed out only to an unmapped reader, which becomes mapped;
+          unmap acts only on a mapped reader, which becomes unmapped;
+    REG   the slot written at registration is the slot map and unmap use;
+    UNMAP the new hold cursor is (pos + consumed, lap) or the reader cursor,
+          moved to (0, lap + 1) exactly when it reached high with the writer
+          already in the next lap."""
+    mapped_v = dict(prog.enum_values("ChannelState") or []).get("ChannelState_Mapped")
+    unmapped_v = dict(prog.enum_values("ChannelState") or []).get("ChannelState_Unmapped")
+    err_v = dict(prog.enum_values("ChannelStatus") or []).get("Channel_Error")
+    if mapped_v is None or unmapped_v is None or err_v is None:
+        raise AnalysisBroken("ChannelState / ChannelStatus enumerators not found")
+    h = prog.func("channel_read_map")
+    u = prog.func("channel_read_unmap")
+    res.touched(h, u)
+
+    def hold_ptrs(f):
+        out = {}
+        for b_, i_, s_ in f.all_stmts():
+            for lv, op, rhs, w in ir.writes_of(s_):
+                if lv.get("k") == "var" and lv.get("pd") and isinstance(rhs, dict):
+                    for y in ir.walk(rhs):
+                        if y.get("k") == "mem" and (ir.ap(y) or "").endswith("holds.pos"):
+                            out["pos"] = lv["id"]
+                        if y.get("k") == "mem" and (ir.ap(y) or "").endswith("holds.cycles"):
+                            out["cycle"] = lv["id"]
+        if len(out) != 2:
+            raise AnalysisBroken("%s: local pointers to the reader's hold cursor not found" % f.name)
+        return out
+    hp, up = hold_ptrs(h), hold_ptrs(u)
+    events = {"ovf": [], "skip": [], "reg": []}
+
+    def on_store(f, e, key, val, st):
+        if f is h and key.endswith("reader->status") and L.is_const(val) and val.get(L.ONE, 0) == err_v:
+            events["ovf"].append(st.copy())
+        if f is h and key == st.ptr.get((h.name, hp["pos"])) and L.is_const(val) and val.get(L.ONE, 0) == 0:
+            events["skip"].append((st.copy(), key))
+        if f.name == "reader_initialize" and ("holds.pos[" in key or "holds.cycles[" in key):
+            events["reg"].append(key)
+    an = L.Analysis(prog, invariant=invariant, on_store=on_store)
+    st0 = L.State()
+    rets = an.run(h, st0)
+    problems = []
+
+    def cur(st, f, ptrs, which):
+        k = st.ptr.get((f.name, ptrs[which]))
+        return k, (st.cells.get(k) if k else None)
+    # OVF
+    for st in events["ovf"]:
+        kp, pos = cur(st, h, hp, "pos")
+        kc, cyc = cur(st, h, hp, "cycle")
+        if pos is None or cyc is None:
+            problems.append(("ovf", "the overflow error is raised without reading the hold cursor"))
+            continue
+        head = an.read(st, "self->head")
+        wc = an.read(st, "self->cycle")
+        if _consistent(st, [_eq(cyc, wc), _le(pos, head)]) or _consistent(st, [_eq(wc, L.ladd(cyc, L.lconst(1))), _le(head, pos)]):
+            problems.append(("ovf", "the overflow error (Channel_Error, skip to the writer's head) can be raised for a reader that has not been overrun: "
+                                    "its unread bytes are dropped"))
+    # SKIP
+    for st, key in events["skip"]:
+        old = st.cells.get(key)
+        high = an.read(st, "self->high")
+        idv = an.read(st, "reader->id")
+        if old is None or not st.entails_eq(L.lsub(old, high)):
+            problems.append(("skip", "the hold position is reset to the start of the next lap while bytes of the old lap may remain unread (position != high)"))
+    # STATE / REG / READ lap at the returns
+    if not any(True for rv, st in rets):
+        raise AnalysisBroken("channel_read_map: no return state")
+    for rv, st in rets:
+        nb = st.cells.get("channel_read_map:nbytes")
+        if nb is None:
+            continue
+        state0 = _init("reader->state")
+        state1 = st.cells.get("reader->state", state0)
+        if not st.entails_eq(nb):
+            if _consistent(st, [_eq(state0, L.lconst(mapped_v))]):
+                problems.append(("state", "bytes are handed to a reader that is already mapped"))
+            if not st.entails_eq(L.lsub(state1, L.lconst(mapped_v))):
+                problems.append(("state", "a reader that was handed bytes is not marked mapped: its release is ignored and it never advances"))
+            rc = st.cells.get("reader->cycle")
+            wc = an.read(st, "self->cycle")
+            if rc is None or not st.entails_eq(L.lsub(rc, wc)):
+                problems.append(("lap", "the reader cursor's lap is not the writer's lap after a non-empty map"))
+        else:
+            if not st.entails_eq(L.lsub(state1, state0)) and not st.entails_eq(L.lsub(state1, L.lconst(unmapped_v))):
+                problems.append(("state", "an empty map leaves the reader marked mapped"))
+    regs = {_pretty(k) for k in events["reg"]}
+    # unmap
+    events_u = {"stores": []}
+
+    def on_store_u(f, e, key, val, st):
+        if f is u and ("holds.pos[" in key or "holds.cycles[" in key):
+            events_u["stores"].append((st.copy(), key))
+    an2 = L.Analysis(prog, invariant=invariant, on_store=on_store_u)
+    rets_u = an2.run(u, L.State())
+    kp_un, kc_un = set(), set()
+    for rv, st in rets_u:
+        state0 = _init("reader->state")
+        kp, pos1 = cur(st, u, up, "pos")
+        kc, cyc1 = cur(st, u, up, "cycle")
+        if kp is None:
+            # early return: nothing may have been stored
+            continue
+        kp_un.add(_pretty(kp))
+        kc_un.add(_pretty(kc))
+        pos0, cyc0 = _init(kp), _init(kc)
+        rpos, rcyc = an2.read(st, "reader->pos"), an2.read(st, "reader->cycle")
+        c = _init("channel_read_unmap:%s" % u.params[2]["n"])
+        Lv = st.cells.get("channel_read_unmap:length")
+        head = an2.read(st, "self->head")
+        high = an2.read(st, "self->high")
+        state1 = st.cells.get("reader->state", state0)
+        if not st.entails_eq(L.lsub(state1, L.lconst(unmapped_v))):
+            problems.append(("state", "channel_read_unmap can return leaving the reader marked mapped"))
+        if Lv is None or pos1 is None or cyc1 is None:
+            problems.append(("unmap", "channel_read_unmap no longer measures the mapped length / updates the hold cursor"))
+            continue
+        one = L.lconst(1)
+        ok = some(st,
+                  [_lt(c, Lv), _eq(pos1, L.ladd(pos0, c)), _eq(cyc1, cyc0)],
+                  [_le(Lv, c), _eq(pos1, rpos), _eq(cyc1, rcyc)],
+                  [_lt(c, Lv), _eq(L.ladd(pos0, c), high), _lt(head, high), ("eq", pos1), _eq(cyc1, L.ladd(cyc0, one))],
+                  [_le(Lv, c), _eq(rpos, high), _lt(head, high), ("eq", pos1), _eq(cyc1, L.ladd(rcyc, one))])
+        if not ok:
+            problems.append(("unmap", "the hold cursor after a release is (%s, %s): neither (position + consumed, lap), nor the reader cursor, nor their normalisation to (0, lap + 1) at high"
+                             % (_pretty(L.lshow(pos1)), _pretty(L.lshow(cyc1)))))
+    for st, key in events_u["stores"]:
+        state0 = _init("reader->state")
+        if _consistent(st, [_lt(state0, L.lconst(mapped_v))]) or _consistent(st, [_lt(L.lconst(mapped_v), state0)]):
+            if "reader->state" in st.cells or True:
+                # the store happens although the reader may not have been mapped
+                if not st.entails_eq(L.lsub(an2.read(st, "reader->state") if "reader->state" in st.cells else state0, L.lconst(mapped_v))):
+                    problems.append(("state", "channel_read_unmap moves the hold cursor of a reader that is not mapped"))
+    # states of channel_read_map in which the reader was registered by this call
+    kp_map, kc_map, kp_reg, kc_reg = set(), set(), set(), set()
+    for rv, st in rets:
+        registered = st.cells.get("reader->id") is not None and st.cells["reader->id"] != _init("reader->id")
+        kp = _pretty(st.ptr.get((h.name, hp["pos"]), "?"))
+        kc = _pretty(st.ptr.get((h.name, hp["cycle"]), "?"))
+        (kp_reg if registered else kp_map).add(kp)
+        (kc_reg if registered else kc_map).add(kc)
+    if len(kp_map | kp_un) != 1 or len(kc_map | kc_un) != 1 or not (kp_reg | kc_reg) <= regs:
+        problems.append(("slot", "registration, map and unmap do not address the same slot of the hold arrays (registration writes %s; map uses %s, %s - after registering %s, %s; unmap uses %s, %s)"
+                         % (sorted(regs), sorted(kp_map), sorted(kc_map), sorted(kp_reg), sorted(kc_reg), sorted(kp_un), sorted(kc_un))))
+    # slot index is >= 0 after registration
+    for rv, st in rets:
+        k = st.ptr.get((h.name, hp["pos"]))
+        if k and "[" in k:
+            idv = an.read(st, "reader->id")
+            if not st.entails_le(L.lsub(L.lconst(1), idv)):
+                problems.append(("slot", "channel_read_map can address slot reader->id - 1 with reader->id == 0 (the reader was not registered)"))
+    seen = set()
+    tags = ("ovf", "skip", "state", "lap", "unmap", "slot")
+    for tag in tags:
+        msgs = sorted({m for t, m in problems if t == tag})
+        inst = {"ovf": "channel_read_map raises the overflow error only for an overrun reader",
+                "skip": "channel_read_map moves to the next lap only when the old lap is exhausted",
+                "state": "the reader's mapped / unmapped state follows map and unmap",
+                "lap": "a non-empty map leaves the reader cursor in the writer's lap",
+                "unmap": "channel_read_unmap moves the hold cursor by exactly the consumed bytes",
+                "slot": "registration, map and unmap address the same, valid slot"}[tag]
+        if msgs:
+            for m in msgs:
+                res.fail(rule, inst, "%s|reader|%s" % (rule, tag), (h if tag in ("ovf", "skip", "lap") else u).loc(), m)
+        else:
+            res.oblige(rule, inst, True, "", h.loc())
+
+
+def rule_writer_ops(prog, res, rule="R-LIN"):
+    """WRAP   channel_write_map: when the granted region does not start at the
+              old head the lap change is recorded (high = old head, lap + 1,
+              head = beg); otherwise high and lap are unchanged;
+       COMMIT channel_write_unmap: head = mapped when writes are accepted;
+       ALL    the wrap-everybody loop visits every registered reader."""
+    g = prog.func("channel_write_map")
+    res.touched(g)
+    an = L.Analysis(prog, invariant=invariant)
+    rets = an.run(g, L.State())
+    problems = []
+    nonnull = 0
+    for rv, st in rets:
+        if rv is None or (L.is_const(rv) and rv.get(L.ONE, 0) == 0):
+            continue
+        nonnull += 1
+        # the values the cursors had when the grant was computed: the symbols
+        # created after the wait loop's havoc (highest version at that time
+        # is what next_write read); head0 is the version next_write saw
+        beg = st.cells.get("channel_write_map:beg")
+        head1, high1, cyc1 = an.read(st, "self->head"), an.read(st, "self->high"), an.read(st, "self->cycle")
+        hv = st.ver.get("self->head", 1) - 1
+        head0 = L.lvar("self->head#%d" % hv)
+        cyc0 = L.lvar("self->cycle#%d" % (st.ver.get("self->cycle", 1) - 1))
+        high0 = L.lvar("self->high#%d" % (st.ver.get("self->high", 1) - 1))
+        if beg is None:
+            problems.append("a region is returned without a begin offset")
+            continue
+        one = L.lconst(1)
+        ok = some(st,
+                  [_eq(beg, head0), _eq(head1, head0), _eq(high1, high0), _eq(cyc1, cyc0)],
+                  [_eq(head1, beg), _eq(high1, head0), _eq(cyc1, L.ladd(cyc0, one))])
+        if not ok:
+            problems.append("after a grant that starts a new lap the bookkeeping is head=%s high=%s lap=%s (expected head = beg, high = old head, lap + 1; or all unchanged when the region starts at head)"
+                            % (_pretty(L.lshow(head1)), _pretty(L.lshow(high1)), _pretty(L.lshow(cyc1))))
+    inst = "channel_write_map records a lap change as high = old head, lap + 1"
+    if nonnull == 0:
+        res.fail(rule, inst, "%s|channel_write_map|wrap" % rule, g.loc(), "channel_write_map never returns a region")
+    elif problems:
+        for m in sorted(set(problems)):
+            res.fail(rule, inst, "%s|channel_write_map|wrap" % rule, g.loc(),
+                     "channel_write_map: %s: readers take the end of the previous lap from high and the lap from cycle" % m)
+    else:
+        res.oblige(rule, inst, True, "%d non-null return state(s)" % nonnull, g.loc())
+    # COMMIT
+    wu = prog.func("channel_write_unmap")
+    res.touched(wu)
+    an = L.Analysis(prog, invariant=invariant)
+    rets = an.run(wu, L.State())
+    okc = bool(rets)
+    for rv, st in rets:
+        acc = _init("self->is_accepting_writes")
+        head1 = st.cells.get("self->head", _init("self->head"))
+        mapped = an.read(st, "self->mapped")
+        if _consistent(st, [_lt(L.lconst(0), acc)]) and not st.entails_eq(L.lsub(head1, mapped)):
+            # state where writes are accepted but head was not advanced
+            s2 = st.copy()
+            s2.cons.append(_lt(L.lconst(0), acc))
+            if s2.feasible() and not s2.entails_eq(L.lsub(head1, mapped)):
+                okc = False
+    inst = "channel_write_unmap commits: head = mapped while writes are accepted"
+    if okc:
+        res.oblige(rule, inst, True, "", wu.loc())
+    else:
+        res.fail(rule, inst, "%s|channel_write_unmap|commit" % rule, wu.loc(),
+                 "channel_write_unmap can return with writes accepted and head != mapped: the frame just written is never published")
+    # ALL: canonical counted loop over holds.n in the wrap branch
+    from . import paths
+    okl = False
+    for hd, body in paths.natural_loops(g):
+        writes = [ir.ap(lv) or "" for b in body for s in g.blocks[b].stmts for lv, op, rhs, w in ir.writes_of(s)]
+        if not any("holds.pos" in w for w in writes):
+            continue
+        rec = {"pre": [], "back": [], "exit": []}
+        an = L.Analysis(prog, invariant=invariant,
+                        on_loop_pre=lambda f_, h_, s, hd=hd: rec["pre"].append(s.copy()) if (f_ is g and h_ == hd) else None,
+                        on_backedge=lambda f_, h_, s, hd=hd: rec["back"].append(s.copy()) if (f_ is g and h_ == hd) else None)
+        an.run(g, L.State())
+        ivars = [k for k in {an.cellkey(g, lv, L.State()) for b in body for s in g.blocks[b].stmts for lv, op, rhs, w in ir.writes_of(s)
+                             if ir.strip(lv).get("k") == "var"} if k]
+        if len(ivars) != 1:
+            continue
+        iv = ivars[0]
+        okl = bool(rec["pre"]) and bool(rec["back"])
+        for s in rec["pre"]:
+            if iv not in s.cells or not s.entails_eq(s.cells[iv]):
+                okl = False
+        for s in rec["back"]:
+            i0 = L.lvar("%s#%d" % (iv, s.ver.get(iv, 1) - 1))
+            n = an.read(s, "self->holds.n")
+            if not s.entails_eq(L.lsub(s.cells.get(iv, {}), L.ladd(i0, L.lconst(1)))) or not s.entails_le(L.ladd(L.lsub(i0, n), L.lconst(1))):
+                okl = False
+            kpos = [k for k in s.cells if "holds.pos[" in k and _pretty(k).endswith("[%s]" % _pretty(L.lshow(i0)))]
+            if not kpos or not all(s.entails_eq(s.cells[k]) for k in kpos):
+                okl = False
+    inst = "channel_write_map's wrap-everybody loop resets every registered reader (i = 0 .. holds.n - 1)"
+    if okl:
+        res.oblige(rule, inst, True, "", g.loc())
+    else:
+        res.fail(rule, inst, "%s|channel_write_map|all-readers" % rule, g.loc(),
+                 "the loop that moves all readers to the new lap does not run over exactly the registered readers 0 .. holds.n - 1")
